@@ -262,13 +262,23 @@ func runC03(e *Engine, r *Report) {
 	// the tally is reached from response handlers only when the sender is not
 	// a non-voting member
 	if tally != nil && nonVotings != nil {
-		n := 0
+		// floor: both kinds of vote response (vote, pre-vote) reach a checked tally
+		// site - counted by handler role, so that merging the two handlers' common
+		// tail into one helper does not change the count
+		roles := map[string]bool{}
+		tblT, _ := e.RaftHandlerTable()
 		for _, s := range e.CallerSites(tally) {
 			// calls with the own replica id (self vote) are exempt
 			if len(s.Common().Args) >= 2 && fieldV(replicaIDF)(s.Common().Args[1]) {
 				continue
 			}
-			n++
+			if tblT != nil {
+				for _, c := range e.CellsReaching(tblT, s.Parent()) {
+					if c.Type == "RequestVoteResp" || c.Type == "RequestPreVoteResp" {
+						roles[c.Type] = true
+					}
+				}
+			}
 			fs := FactsAt(s.(ssa.Instruction))
 			ok := false
 			for _, f := range fs {
@@ -283,7 +293,7 @@ func runC03(e *Engine, r *Report) {
 				"votes of non-voting members are dropped before the tally",
 				"a vote response reaches the tally without the non-voting sender test")
 		}
-		r.floor("GD-tally", n, 2)
+		r.floor("GD-tally", len(roles), 2)
 	}
 
 	// ---- no campaign with an unapplied config change
